@@ -268,6 +268,7 @@ func (cr *clRun) run(dir string) {
 	s := cr.s
 	w := simrt.NewWorld(s.Seed, synctest.Wait)
 	w.StrictLocks = os.Getenv("VERIF_LOOSE_LOCKS") == ""
+	w.LockJitter = time.Duration(s.Cfg["jitter"]) * time.Microsecond
 	defer w.Close()
 	cr.w = w
 	w.TraceOn = os.Getenv("VERIF_TRACE") != "" || s.Cfg["trace"] != 0
@@ -1843,6 +1844,9 @@ func (clustersim) Generate(rng *Rand, prop, tier string) *Script {
 	s.Cfg["rf"] = int64(rf)
 	s.Cfg["blocks"] = nb
 	s.Cfg["perm"] = int64(rng.Intn(2))
+	if rng.Bool(25) {
+		s.Cfg["jitter"] = int64([]int{20, 100, 400}[rng.Intn(3)]) // microseconds of simulated time before lock requests
+	}
 	if rng.Bool(30) {
 		s.Cfg["punchlag"] = int64([]int{50, 500, 5000, 70000}[rng.Intn(4)]) // lagging hole puncher (ms per hole, upper bound)
 	}
